@@ -95,8 +95,13 @@ class UpdateReferences:
           found = True
       elif isinstance(elem, gfapy.OrientedLine):
         if elem.line is oldref:
-          if hasattr(oldref, "is_complement") and \
-                            oldref.is_complement(newref):
+          if hasattr(oldref, "is_compatible_direct") and \
+              newref is not None and \
+              not newref.is_compatible_direct(oldref.oriented_from,
+                                              oldref.oriented_to,
+                                              oldref.overlap):
+            # the link which takes the place of the placeholder link goes in
+            # the opposite direction
             elem.orient = gfapy.invert(elem.orient)
           elem.line = newref
           found = True
